@@ -28,6 +28,8 @@
    Names are TEXT (absolute, trailing dot), an rdata is <<type, int, string>> with embedded
    names absolute.  TTL -1 = none.  Everything the sources do not decide is a field of the
    policy record `pol` (fixed for a whole run = one consistent reading):
+     blank0   origin|err     a blank owner while no owner has been stated (at the start, or after an
+                             include that restores that situation): the zone origin / refused
      incOwner restore|keep   last owner after the included file ends (RFC silent; BIND restores)
      incTtl   restore|keep   $TTL / last-TTL state after the included file ends
      incIn    inherit|origin last owner at the start of an included file
@@ -41,10 +43,10 @@
                              default)" vs signature False *)
 EXTENDS Integers, Sequences, FiniteSets, TLC
 
-PolFields == {"incOwner", "incTtl", "incIn", "soaDef", "soaOwn", "rrsTtl", "genOwner", "incDflt"}
-PolA == [incOwner |-> "restore", incTtl |-> "restore", incIn |-> "inherit", soaDef |-> "min", soaOwn |-> "min",
+PolFields == {"blank0", "incOwner", "incTtl", "incIn", "soaDef", "soaOwn", "rrsTtl", "genOwner", "incDflt"}
+PolA == [blank0 |-> "origin", incOwner |-> "restore", incTtl |-> "restore", incIn |-> "inherit", soaDef |-> "min", soaOwn |-> "min",
          rrsTtl |-> "inherit", genOwner |-> "set", incDflt |-> "no"]
-PolB == [incOwner |-> "keep", incTtl |-> "keep", incIn |-> "origin", soaDef |-> "rfc1035", soaOwn |-> "err",
+PolB == [blank0 |-> "err", incOwner |-> "keep", incTtl |-> "keep", incIn |-> "origin", soaDef |-> "rfc1035", soaOwn |-> "err",
          rrsTtl |-> "err", genOwner |-> "keep", incDflt |-> "yes"]
 \* every policy that differs from PolA only inside the field set F
 PoliciesOver(F) ==
@@ -95,7 +97,7 @@ Expand(tpl, i) == IF tpl = <<>> THEN "" ELSE
    ("" = not forced), fttl (-1), fcls ("" = rdclass None), ftype (""), dttl (-1).
    A line is a record with k in rr | origin | ttl | inc | end | gen (fields below). *)
 Range(s) == {s[i] : i \in 1..Len(s)}
-Start(c) == [stack |-> <<>>, origin |-> c.zorigin, lastOwner |-> "", defTtl |-> c.dttl, lastTtl |-> -1,
+Start(c, p) == [stack |-> <<>>, origin |-> c.zorigin, lastOwner |-> (IF p.blank0 = "origin" THEN c.zorigin ELSE ""), defTtl |-> c.dttl, lastTtl |-> -1,
              soaMin |-> -1, out |-> <<>>, status |-> "ok", errAt |-> <<"", 0>>, file |-> "main", ln |-> 0, n |-> 0]
 Fail(S) == [S EXCEPT !.status = "err", !.errAt = <<S.file, S.ln + 1>>, !.n = @ + 1]
 Adv(S) == [S EXCEPT !.ln = @ + 1, !.n = @ + 1]
